@@ -26,7 +26,11 @@ AllUse == <<"fa", "fb", "fc", "fp", "fz">>
 FirstEdges(imp) ==
     LET lvl == IF imp = "cs" THEN 2 ELSE 0 IN     \* from R/sub/conftest.py everything is one level up
     { <<Spelled(Star("m1"), lvl)>>, <<Spelled(Imp("m1", "fa"), lvl)>>, <<Spelled(ImpAs("m1", "fa", "fz"), lvl)>>,
-      <<Spelled(Star("pk"), lvl)>>, <<Spelled(Star("m3"), lvl)>>, <<Spelled(Imp("m3", "fc"), lvl)>> }
+      <<Spelled(Star("pk"), lvl)>>, <<Spelled(Star("m3"), lvl)>>, <<Spelled(Imp("m3", "fc"), lvl)>>,
+      \* the same re-exporting package referenced by two import statements: its own fixture and one it re-exports
+      <<Spelled(Imp("pk", "fp"), lvl), Spelled(Imp("pk", "fc"), lvl)>>,
+      <<Spelled(Imp("pk", "fc"), lvl), Spelled(Imp("pk", "fp"), lvl)>>,
+      <<Spelled(Star("pk"), lvl), Spelled(Imp("pk", "fc"), lvl)>> }
     \cup (IF imp # "cs" THEN { <<Spelled(Star("m1"), 1)>>, <<Spelled(Plugins("m1"), 1)>>, <<Spelled(Plugins("m3"), 1)>>,
                                <<Spelled(Plugins("m2"), 1), Spelled(Plugins("m1"), 1)>> }   \* last assignment wins
           ELSE {})
